@@ -25,9 +25,15 @@ def kwargs_of(frame, n):
                     if isinstance(kk, str):
                         if kk in kw:
                             frame.ctx.event("duplicate-keyword", kk, (kw[kk], vv), guard=frame.guard(), loops=frame.loops, where=frame.where(n))
+                            frame.ctx.raises.append(('TypeError', frame.guard(), frame.where(n)))
+                            raise SE.RaisedInCallee(f'got multiple values for keyword argument {kk!r}')
                         kw[kk] = vv
                     else:
                         extra.append(vv)
+            elif v == NONE:
+                frame.ctx.raises.append(('TypeError', frame.guard(), frame.where(n)))
+                frame.ctx.event('typeerror', '** of None', guard=frame.guard(), where=frame.where(n))
+                raise SE.RaisedInCallee('argument after ** must be a mapping, not NoneType')
             else:
                 extra.append(v)
         else:
@@ -412,11 +418,33 @@ def term_kind(fr, t):
         return 'ndarray'
     if tag == 'shaped':
         return 'ndarray'
-    if tag in ('arr', 'map') or (tag == 'call' and t[1] in ('array', 'zeros', 'asarray', 'flatten', 'append')):
+    if series_like(t):
+        return 'series'
+    if tag == 'arr':
+        return term_kind(fr, t[1]) or 'ndarray'          # element stores keep the python type of the container
+    if tag in ('map',) or (tag == 'call' and t[1] in ('array', 'zeros', 'asarray', 'flatten', 'append')):
         return 'ndarray' if not (tag == 'map') else 'list'
     if tag == 'atom':
         return {'intarr': 'ndarray', 'arr': 'ndarray', 'boolarr': 'ndarray', 'table': 'df', 'dict': 'dict', 'list': 'list'}.get(t[2])
     return None
+
+
+def series_like(t):
+    """a pandas Series: a column of a table, or an element-wise expression over one (not yet converted by .values / .to_numpy())"""
+    tag = t[0]
+    if tag == 'col':
+        return True
+    if tag == 'lin':
+        return any(series_like(x) for x, c in t[2])
+    if tag in ('cmp0', 'binv'):
+        return series_like(t[2] if tag == 'cmp0' else t[1])
+    if tag in ('band', 'bor', 'mul'):
+        return any(series_like(x) for x in t[1])
+    if tag == 'div':
+        return series_like(t[1]) or series_like(t[2])
+    if tag == 'idx' and t[2][0] == 'rowsel':
+        return series_like(t[1])
+    return False
 
 
 def isinstance_(fr, t, type_node):
@@ -653,7 +681,9 @@ def method(fr, recv, recv_node, name, args, kw, extra, n):
         ctx.event('call', 'ax.' + name, (recv,) + tuple(args), kw, guard=guard, loops=loops, where=where)
         return T.call('ax.' + name, (recv,) + tuple(args), kw)
     # ---- value preserving
-    if name in ('copy', 'to_numpy', 'squeeze') and tag not in ('dict',):
+    if name == 'to_numpy':
+        return recv if term_kind(fr, recv) == 'ndarray' else ('nd', recv)      # same values, python type becomes ndarray
+    if name in ('copy', 'squeeze') and tag not in ('dict',):
         return recv
     if name == 'copy' and tag == 'dict':
         return recv
